@@ -60,6 +60,15 @@ CHECKS = {
         note='Trusted: llvm-dwarfdump line table / DIE ranges, llvm-objdump instruction boundaries. Only user compilation units are judged; '
              'function names are accepted in either DIE-path or demangled-linkage form.',
         ref='DESIGN.md §4 C04'),
+    'C07': dict(
+        technique='runtime monitoring: round-trip oracle for the parser (generator-owned AST vs parsed AST) and a reference model of the documented operators over recorded ground truth',
+        text='Random expression trees (depth <= 5, all literal forms) are printed canonically with random whitespace/parentheses and must parse '
+             'back to the same tree; type-directed expressions over generated programs are evaluated at a stop and compared with a small model '
+             'of the documented operators (index, key lookup with wildcards, set membership, in-range slices, deref, *&, (~v).len, field), '
+             'including operators that do not apply (must give no result). Held on the inputs explored except the known finding.',
+        note='Trusted: the generator\'s printer and the 100-line operator model, which encodes only what print.mdx documents; the program\'s own '
+             'canonical output as ground truth.',
+        ref='DESIGN.md §4 C07'),
 }
 
 NOT_APPLICABLE = {
